@@ -23,6 +23,10 @@ spurious failure, `exchange`) and on the reference counter (`fetch_add`, `fetch_
 client-visible event (callback body invoked, job submitted, target promise fulfilled, `Ready()` reported, `Get`
 returned …).  Thread-local code between two such operations is folded into the following step: the plain
 `Store(result)` into the `exchange`, `Retire()`'s read of the value into its `fetch_sub`.
+A combinator (When*) callback is ENTERED (`Here(caller)`: by the fulfiller's walk, or inline by the registrar when the
+word already holds the result) in one step and calls `Retire()` (`GetRef()` load, then read + `DecRef()`) in two later
+steps of ANY thread, with any number of steps of others in between: the Managed strategies retire at once inside `Here`,
+the Owned ones keep the core and retire in the combinator's destructor, possibly on another thread.
 `MutexEvent::Set` (blocking `Wait`/`Get`) is one step; the mutex/condvar protocol itself is C01/C11's matter.
 
 Threads: ONE fulfiller (owns the SharedPromise), ANY number of observers (`obs : Nat → Obs`, the first `n` of them
@@ -43,7 +47,7 @@ inductive Kind where
   | exec     -- `Call` cores (Then(e) / Subscribe(e)): `caller.IncRef()`, Submit; the job reads the value later, then `DecRef()`
   | event    -- the stack event of Wait / Get: releases the blocked waiter
   | target   -- another promise's core (Connect / Share / Split): `ResultCore::Impl` copies or moves the value into it
-  | retire   -- a combinator callback that owns one reference (When*): `Retire()` = copy-or-move, then `DecRef()`
+  | retire   -- a combinator callback that owns one reference (When*): entered, later `Retire()` = copy-or-move + `DecRef()`
   deriving DecidableEq, Repr
 
 /-- a callback object: created by observer `owner` as its `seq`-th one -/
@@ -106,7 +110,7 @@ structure Workload where
 inductive FSt where
   | begin
   | incd              -- exec: `caller.IncRef()` done, Submit next
-  | refd (n : Nat)    -- target / retire: `GetRef()` returned n
+  | refd (n : Nat)    -- target: `GetRef()` returned n
   | post              -- target with ref == 1: `caller.DecRef()` done (shown unreachable for a shared caller)
   deriving DecidableEq, Repr
 
@@ -147,12 +151,15 @@ structure State where
   obs : Nat → Obs
   jobs : List Cb                   -- `exec` callbacks submitted to their executor, not called yet
   jobsRun : List Cb                -- called (value read), `caller->DecRef()` pending
+  rets : List Cb                   -- `retire` callbacks that were entered and still own their reference: Retire() pending
+  retsLd : List (Cb × Nat)         -- … whose Retire() has read `GetRef()` = n
   -- ghost
   chain : List Cb                  -- every callback ever pushed, newest first (= the list while the word is a list)
   holders : Nat                    -- Σ refs
   registered : List Cb             -- callback objects created (SetCallback called with them)
   inflight : List Cb               -- … that are still in their owner's hands (being pushed / being run inline)
-  fired : List (Cb × Option Res)   -- callback ran / waiter released / target fulfilled: with the storage content it saw
+  fired : List (Cb × Option Res)   -- callback ran (entered) / waiter released / target fulfilled: with the storage content it saw
+  retired : List (Cb × Option Res × Bool)   -- Retire() returned: value, moved?
   got : List (Nat × Option Res × Bool)      -- Get()&& returned: thread, value, moved?
   getcObs : List (Nat × Option Res)         -- Get() const& returned
   readyObs : List (Word × Bool)    -- Ready(): the word value it loaded, was the storage constructed when it reported
@@ -168,7 +175,7 @@ def promiseRefs : Nat := 3
 def init (w : Workload) : State :=
   { w := w, n := w.progs.length, word := .list [], stored := none, count := promiseRefs + w.progs.length, fpc := .start,
     obs := fun t => { pc := .idle, todo := w.progs.getD t [], refs := if t < w.progs.length then 1 else 0, seq := 0 },
-    jobs := [], jobsRun := [], chain := [], holders := w.progs.length, registered := [], inflight := [], fired := [],
+    jobs := [], jobsRun := [], rets := [], retsLd := [], retired := [], chain := [], holders := w.progs.length, registered := [], inflight := [], fired := [],
     got := [], getcObs := [], readyObs := [], touchObs := [], movedOut := false, freed := 0 }
 
 inductive Label where
@@ -179,9 +186,9 @@ inductive Label where
   | fSet (c : Cb)                                       -- MutexEvent::Set of a waiter
   | fIncRef (n : Nat)                                   -- exec: caller.IncRef(): fetch_add(1, relaxed) → n
   | fSubmit (c : Cb)
-  | fRefLoad (n : Nat)                                  -- target / retire: GetRef(): load(relaxed) → n
+  | fRefLoad (n : Nat)                                  -- target: GetRef(): load → n
   | fForward (c : Cb) (r : Option Res) (mv : Bool)      -- target promise fulfilled with r (moved out of the core?)
-  | fRetire (c : Cb) (r : Option Res) (mv : Bool) (n : Nat)  -- Retire(): read r, DecRef(): fetch_sub → n
+  | fEnter (c : Cb)                                     -- a combinator callback is entered by the walk
   -- observer t
   | oLoad (t : Nat) (x : Word)                          -- SetCallbackImpl: first load
   | oCasOk (t : Nat)
@@ -191,8 +198,7 @@ inductive Label where
   | oIncRef (t : Nat) (n : Nat)
   | oSubmit (t : Nat) (c : Cb)
   | oForward (t : Nat) (c : Cb) (r : Option Res)        -- Connect's else-branch: `p.Set(f.Touch())`, always a copy
-  | oRefLoad (t : Nat) (n : Nat)
-  | oRetire (t : Nat) (c : Cb) (r : Option Res) (mv : Bool) (n : Nat)
+  | oEnter (t : Nat) (c : Cb)                           -- … or inline by its registrar
   | oWaited (t : Nat)
   | oGetc (t : Nat) (r : Option Res)
   | oGetRef (t : Nat) (n : Nat)
@@ -205,6 +211,9 @@ inductive Label where
   -- executor jobs
   | jInvoke (c : Cb) (r : Option Res)
   | jDec (c : Cb) (n : Nat)
+  -- Retire() of an entered combinator callback, by whoever holds the combinator
+  | rRefLoad (c : Cb) (n : Nat)                         -- GetRef(): load → n
+  | rRetire (c : Cb) (r : Option Res) (mv : Bool) (n : Nat)   -- read r (moved iff GetRef() was 1), DecRef(): fetch_sub → n
   deriving DecidableEq, Repr
 
 /-! ### effects -/
@@ -244,8 +253,8 @@ def doFFire (s : State) (c : Cb) (rest : List Cb) : State :=
 def doFForward (s : State) (c : Cb) (rest : List Cb) (mv : Bool) : State :=
   { s with fpc := advance rest, fired := s.fired ++ [(c, s.stored)], movedOut := s.movedOut || mv }
 
-def doFRetire (s : State) (c : Cb) (rest : List Cb) (mv : Bool) : State :=
-  { decCount s with fpc := advance rest, fired := s.fired ++ [(c, s.stored)], movedOut := s.movedOut || mv }
+def doFEnter (s : State) (c : Cb) (rest : List Cb) : State :=
+  { s with fpc := advance rest, fired := s.fired ++ [(c, s.stored)], rets := s.rets ++ [c] }
 
 /-- SetCallbackImpl saw kResult: `return false`.  A waiter simply does not wait; everything else runs its callback itself. -/
 def failPath (s : State) (t : Nat) (o : Obs) (c : Cb) : State :=
@@ -288,10 +297,11 @@ def doOSubmit (s : State) (t : Nat) (c : Cb) : State :=
   { s with jobs := s.jobs ++ [c], inflight := s.inflight.erase c, holders := s.holders - 1,
            obs := upd s.obs t { nextOp o with refs := o.refs - 1 } }
 
-def doORetire (s : State) (t : Nat) (c : Cb) (mv : Bool) : State :=
+/-- the registrar enters its own combinator callback: the reference the future had now belongs to the combinator -/
+def doOEnter (s : State) (t : Nat) (c : Cb) : State :=
   let o := s.obs t
-  { decCount s with fired := s.fired ++ [(c, s.stored)], inflight := s.inflight.erase c, movedOut := s.movedOut || mv,
-                    holders := s.holders - 1, obs := upd s.obs t { nextOp o with refs := o.refs - 1 } }
+  { s with fired := s.fired ++ [(c, s.stored)], inflight := s.inflight.erase c, rets := s.rets ++ [c],
+           holders := s.holders - 1, obs := upd s.obs t { nextOp o with refs := o.refs - 1 } }
 
 def doGetc (s : State) (t : Nat) : State :=
   { s with getcObs := s.getcObs ++ [(t, s.stored)], obs := upd s.obs t (nextOp (s.obs t)) }
@@ -325,6 +335,13 @@ def doJInvoke (s : State) (c : Cb) : State :=
 def doJDec (s : State) (c : Cb) : State :=
   { decCount s with jobsRun := s.jobsRun.erase c }
 
+def doRRefLoad (s : State) (c : Cb) : State :=
+  { s with rets := s.rets.erase c, retsLd := s.retsLd ++ [(c, s.count)] }
+
+def doRRetire (s : State) (c : Cb) (n : Nat) : State :=
+  { decCount s with retsLd := s.retsLd.erase (c, n), retired := s.retired ++ [(c, s.stored, decide (n = 1))],
+                    movedOut := s.movedOut || decide (n = 1) }
+
 def firedIds (s : State) : List Cb := s.fired.map (·.1)
 
 inductive Step : State → Label → State → Prop where
@@ -342,9 +359,9 @@ inductive Step : State → Label → State → Prop where
       Step s (.fIncRef s.count) { s with count := s.count + 1, fpc := .walk (c :: rest) d .incd }
   | fSubmit (s : State) (c : Cb) (rest : List Cb) (d : Bool) (h : s.fpc = .walk (c :: rest) d .incd) :
       Step s (.fSubmit c) { s with fpc := advance rest, jobs := s.jobs ++ [c] }
-  /-- ResultCore::Impl / SharedCore::Retire: `GetRef()` -/
+  /-- ResultCore::Impl: `GetRef()` -/
   | fRefLoad (s : State) (c : Cb) (rest : List Cb) (d : Bool) (h : s.fpc = .walk (c :: rest) d .begin)
-      (hk : c.kind = .target ∨ c.kind = .retire) (hf : canFire rest d) :
+      (hk : c.kind = .target) (hf : canFire rest d) :
       Step s (.fRefLoad s.count) { s with fpc := .walk (c :: rest) d (.refd s.count) }
   /-- ResultCore::Impl: `if (ref == 1) caller.DecRef()` -/
   | fTargetDec (s : State) (c : Cb) (rest : List Cb) (d : Bool) (h : s.fpc = .walk (c :: rest) d (.refd 1))
@@ -355,10 +372,9 @@ inductive Step : State → Label → State → Prop where
       Step s (.fForward c s.stored (decide (n < 3))) (doFForward s c rest (decide (n < 3)))
   | fForwardPost (s : State) (c : Cb) (rest : List Cb) (d : Bool) (h : s.fpc = .walk (c :: rest) d .post)
       (hk : c.kind = .target) : Step s (.fForward c s.stored true) (doFForward s c rest true)
-  /-- SharedCore::Retire: `GetRef() == 1 ? move : copy`, DecRef() -/
-  | fRetire (s : State) (c : Cb) (rest : List Cb) (d : Bool) (n : Nat) (h : s.fpc = .walk (c :: rest) d (.refd n))
-      (hk : c.kind = .retire) :
-      Step s (.fRetire c s.stored (decide (n = 1)) s.count) (doFRetire s c rest (decide (n = 1)))
+  /-- a combinator callback's `Here(caller)`: from now on the combinator may `Retire()` -/
+  | fEnter (s : State) (c : Cb) (rest : List Cb) (d : Bool) (h : s.fpc = .walk (c :: rest) d .begin)
+      (hk : c.kind = .retire) (hf : canFire rest d) : Step s (.fEnter c) (doFEnter s c rest)
   /-- the trailing DecRef()s -/
   | fDec (s : State) (k : Nat) (h : s.fpc = .dec (k + 1)) : Step s (.fDec s.count) { decCount s with fpc := .dec k }
   /-- SetCallbackImpl<true>: the first load (may be stale) -/
@@ -379,10 +395,8 @@ inductive Step : State → Label → State → Prop where
   | oSubmit (s : State) (t : Nat) (c : Cb) (h : (s.obs t).pc = .run c .incd) : Step s (.oSubmit t c) (doOSubmit s t c)
   | oForward (s : State) (t : Nat) (c : Cb) (h : (s.obs t).pc = .run c .begin) (hk : c.kind = .target) :
       Step s (.oForward t c s.stored) (doOInvoke s t c)
-  | oRefLoad (s : State) (t : Nat) (c : Cb) (h : (s.obs t).pc = .run c .begin) (hk : c.kind = .retire) :
-      Step s (.oRefLoad t s.count) { s with obs := upd s.obs t { s.obs t with pc := .run c (.refd s.count) } }
-  | oRetire (s : State) (t : Nat) (c : Cb) (n : Nat) (h : (s.obs t).pc = .run c (.refd n)) :
-      Step s (.oRetire t c s.stored (decide (n = 1)) s.count) (doORetire s t c (decide (n = 1)))
+  | oEnter (s : State) (t : Nat) (c : Cb) (h : (s.obs t).pc = .run c .begin) (hk : c.kind = .retire) :
+      Step s (.oEnter t c) (doOEnter s t c)
   /-- Wait(sf) returned -/
   | oWaited (s : State) (t : Nat) (c : Cb) (rest : List Op) (h : (s.obs t).pc = .evt c)
       (ht : (s.obs t).todo = .attach .event :: rest) (hf : c ∈ firedIds s) :
@@ -411,6 +425,11 @@ inductive Step : State → Label → State → Prop where
   | jInvoke (s : State) (c : Cb) (h : c ∈ s.jobs) : Step s (.jInvoke c s.stored) (doJInvoke s c)
   /-- … and `Done()` releases the reference taken in `Impl` -/
   | jDec (s : State) (c : Cb) (h : c ∈ s.jobsRun) : Step s (.jDec c s.count) (doJDec s c)
+  /-- SharedCore::Retire, first half: `GetRef()` -/
+  | rRefLoad (s : State) (c : Cb) (h : c ∈ s.rets) : Step s (.rRefLoad c s.count) (doRRefLoad s c)
+  /-- … second half: `== 1 ? move : copy`, `DecRef()` -/
+  | rRetire (s : State) (c : Cb) (n : Nat) (h : (c, n) ∈ s.retsLd) :
+      Step s (.rRetire c s.stored (decide (n = 1)) s.count) (doRRetire s c n)
 
 inductive Reachable (w : Workload) : State → Prop where
   | init : Reachable w (init w)
@@ -454,7 +473,7 @@ def next (s : State) : Label → Option State
   | .fRefLoad n =>
       match s.fpc with
       | .walk (c :: rest) d .begin =>
-          if (c.kind = .target ∨ c.kind = .retire) ∧ canFire rest d ∧ n = s.count
+          if c.kind = .target ∧ canFire rest d ∧ n = s.count
           then some { s with fpc := .walk (c :: rest) d (.refd s.count) } else none
       | _ => none
   | .fForward c r mv =>
@@ -465,11 +484,10 @@ def next (s : State) : Label → Option State
       | .walk (c' :: rest) _ .post =>
           if c' = c ∧ c.kind = .target ∧ r = s.stored ∧ mv = true then some (doFForward s c rest true) else none
       | _ => none
-  | .fRetire c r mv n =>
+  | .fEnter c =>
       match s.fpc with
-      | .walk (c' :: rest) _ (.refd m) =>
-          if c' = c ∧ c.kind = .retire ∧ r = s.stored ∧ mv = decide (m = 1) ∧ n = s.count
-          then some (doFRetire s c rest (decide (m = 1))) else none
+      | .walk (c' :: rest) d .begin =>
+          if c' = c ∧ c.kind = .retire ∧ canFire rest d then some (doFEnter s c rest) else none
       | _ => none
   | .oLoad t x =>
       if (s.obs t).pc = .idle ∧ 0 < (s.obs t).refs ∧ loadOk s x then
@@ -500,17 +518,7 @@ def next (s : State) : Label → Option State
   | .oSubmit t c => if (s.obs t).pc = .run c .incd then some (doOSubmit s t c) else none
   | .oForward t c r =>
       if (s.obs t).pc = .run c .begin ∧ c.kind = .target ∧ r = s.stored then some (doOInvoke s t c) else none
-  | .oRefLoad t n =>
-      match (s.obs t).pc with
-      | .run c .begin =>
-          if c.kind = .retire ∧ n = s.count
-          then some { s with obs := upd s.obs t { s.obs t with pc := .run c (.refd s.count) } } else none
-      | _ => none
-  | .oRetire t c r mv n =>
-      match (s.obs t).pc with
-      | .run c' (.refd m) =>
-          if c' = c ∧ r = s.stored ∧ mv = decide (m = 1) ∧ n = s.count then some (doORetire s t c (decide (m = 1))) else none
-      | _ => none
+  | .oEnter t c => if (s.obs t).pc = .run c .begin ∧ c.kind = .retire then some (doOEnter s t c) else none
   | .oWaited t =>
       match (s.obs t).pc, (s.obs t).todo with
       | .evt c, .attach .event :: _ => if c ∈ firedIds s then some { s with obs := upd s.obs t (nextOp (s.obs t)) } else none
@@ -553,17 +561,23 @@ def next (s : State) : Label → Option State
       else none
   | .jInvoke c r => if c ∈ s.jobs ∧ r = s.stored then some (doJInvoke s c) else none
   | .jDec c n => if c ∈ s.jobsRun ∧ n = s.count then some (doJDec s c) else none
+  | .rRefLoad c n => if c ∈ s.rets ∧ n = s.count then some (doRRefLoad s c) else none
+  | .rRetire c r mv n =>
+      match s.retsLd.find? (fun p => p.1 = c) with
+      | some (c', m) =>
+          if c' = c ∧ (c, m) ∈ s.retsLd ∧ r = s.stored ∧ mv = decide (m = 1) ∧ n = s.count then some (doRRetire s c m) else none
+      | none => none
 
 /-- labels of steps that read the result storage -/
 def Label.reads : Label → Bool
-  | .fInvoke .. => true | .fForward .. => true | .fRetire .. => true
-  | .oInvoke .. => true | .oForward .. => true | .oRetire .. => true
+  | .fInvoke .. => true | .fForward .. => true | .rRetire .. => true
+  | .oInvoke .. => true | .oForward .. => true
   | .oGetc .. => true | .oGot .. => true | .oTouch .. => true | .jInvoke .. => true
   | _ => false
 
 /-- labels of steps that move the value out -/
 def Label.moves : Label → Bool
-  | .fForward _ _ mv => mv | .fRetire _ _ mv _ => mv | .oRetire _ _ _ mv _ => mv | .oGot _ _ mv => mv
+  | .fForward _ _ mv => mv | .rRetire _ _ mv _ => mv | .oGot _ _ mv => mv
   | _ => false
 
 theorem next_sound {s : State} {l : Label} {s' : State} (h : next s l = some s') : Step s l s' := by
@@ -643,13 +657,12 @@ theorem next_sound {s : State} {l : Label} {s' : State} (h : next s l = some s')
           exact .fForwardPost s c' rest d hp h2
         · cases h
       · cases h
-  | fRetire c r mv n =>
+  | fEnter c =>
       simp only [next] at h
       split at h
-      · rename_i c' rest d m hp
+      · rename_i c' rest d hp
         split at h
-        · rename_i hg; obtain ⟨h1, h2, h3, h4, h5⟩ := hg; cases h; subst h1; subst h3; subst h4; subst h5
-          exact .fRetire s c' rest d m hp h2
+        · rename_i hg; obtain ⟨h1, h2, h3⟩ := hg; cases h; subst h1; exact .fEnter s c' rest d hp h2 h3
         · cases h
       · cases h
   | oLoad t x =>
@@ -710,22 +723,10 @@ theorem next_sound {s : State} {l : Label} {s' : State} (h : next s l = some s')
       split at h
       · rename_i hg; obtain ⟨h1, h2, h3⟩ := hg; cases h; subst h3; exact .oForward s t c h1 h2
       · cases h
-  | oRefLoad t n =>
+  | oEnter t c =>
       simp only [next] at h
       split at h
-      · rename_i c hp
-        split at h
-        · rename_i hg; cases h; rw [hg.2]; exact .oRefLoad s t c hp hg.1
-        · cases h
-      · cases h
-  | oRetire t c r mv n =>
-      simp only [next] at h
-      split at h
-      · rename_i c' m hp
-        split at h
-        · rename_i hg; obtain ⟨h1, h2, h3, h4⟩ := hg; cases h; subst h1; subst h2; subst h3; subst h4
-          exact .oRetire s t c' m hp
-        · cases h
+      · rename_i hg; cases h; exact .oEnter s t c hg.1 hg.2
       · cases h
   | oWaited t =>
       simp only [next] at h
@@ -808,6 +809,20 @@ theorem next_sound {s : State} {l : Label} {s' : State} (h : next s l = some s')
       simp only [next] at h
       split at h
       · rename_i hg; cases h; rw [hg.2]; exact .jDec s c hg.1
+      · cases h
+  | rRefLoad c n =>
+      simp only [next] at h
+      split at h
+      · rename_i hg; cases h; rw [hg.2]; exact .rRefLoad s c hg.1
+      · cases h
+  | rRetire c r mv n =>
+      simp only [next] at h
+      split at h
+      · rename_i c' m hf
+        split at h
+        · rename_i hg; obtain ⟨h1, h2, h3, h4, h5⟩ := hg; cases h; subst h3; subst h4; subst h5
+          exact .rRetire s c m h2
+        · cases h
       · cases h
 
 end Yaclib.Shared
